@@ -429,7 +429,19 @@ func evalC12(c *engine.Case) engine.Verdict {
 				v.Failf("goroutine %d op %d (%s) panicked", gi, oi, x.Ops[gi][oi])
 				return v
 			}
-			if well && !hasFailing(sc) && got[gi][oi] != want[gi][oi] {
+			wellOp := well
+			if x.Ops[gi][oi] == "convert" && wellOp {
+				// Convert does not see the inputs that are default options of
+				// the target Func: judge the premise on what it really gets
+				nd := x.Defaults
+				if nd > len(sc.Inputs) {
+					nd = len(sc.Inputs)
+				}
+				s2 := *sc
+				s2.Inputs = sc.Inputs[nd:]
+				wellOp = engine.SingleInput(&s2) || (!engine.DepCyclic(&s2, engine.RPlus) && engine.AllConvsSatisfiable(&s2, engine.RMinus))
+			}
+			if wellOp && !hasFailing(sc) && got[gi][oi] != want[gi][oi] {
 				v.Failf("goroutine %d op %d (%s): outcome %q, sequential execution gives %q", gi, oi, x.Ops[gi][oi], got[gi][oi], want[gi][oi])
 				return v
 			}
